@@ -111,3 +111,20 @@ Definition push_imm (checked longform : bool) (imm : Z) : option arith_enc :=
   let imm_size := if i8 then 1 else 4 in
   Some {| ae_opsize := 8; ae_short := true; ae_opc := if i8 then 106 else 104; ae_immsize := imm_size;
           ae_field := imm_field imm imm_size |}.
+
+(* ---- shifts and rotates by an immediate count (case kEncodingX86Rot: rol ror rcl rcr shl shr sal sar r/m, imm) and the
+   double shifts (case kEncodingX86ShldShrd: shld/shrd r/m, r, imm): the count byte is `imm & 0xFF`; a count of 1 uses the
+   D0/D1 form without immediate unless the long form is requested.  ae_opc: D0/D1 (by 1), C0/C1 (ib); 0FA4 / 0FAC for shld / shrd. *)
+Definition rot_imm (size : Z) (longform : bool) (imm : Z) : arith_enc :=
+  let c := imm mod 256 in
+  if (c =? 1) && negb longform
+  then {| ae_opsize := size; ae_short := false; ae_opc := if size =? 1 then 208 else 209; ae_immsize := 0; ae_field := 0 |}
+  else {| ae_opsize := size; ae_short := false; ae_opc := if size =? 1 then 192 else 193; ae_immsize := 1; ae_field := c |}.
+
+Definition shld_imm (right : bool) (size : Z) (imm : Z) : arith_enc :=
+  {| ae_opsize := size; ae_short := false; ae_opc := if right then 4012 else 4004; ae_immsize := 1; ae_field := imm_field imm 1 |}.
+
+(* the count the CPU uses (SDM, SHL/SHR/.., SHLD/SHRD: the count is masked to 5 bits, 6 bits with REX.W) *)
+Definition count_mask (size : Z) : Z := if size =? 8 then 63 else 31.
+Definition cpu_count (size : Z) (e : arith_enc) : Z :=
+  if ae_immsize e =? 0 then 1 else Z.land (ae_field e) (count_mask size).
